@@ -72,7 +72,12 @@ def w_sweep(case):
         deleted, badcrc = case.get('deleted', []), case.get('badcrc', [])
         secs, bits, spans = make_track(enc, nsect, deleted=deleted, bad_data_crc=badcrc)
         lo, hi = case.get('lo', 0), case.get('hi', 0xFFFFFFFF)
-        r = mcx.call('san', mcx.req_sweep(enc, kind, param, bits, lo, hi))
+        r = mcx.call('san', mcx.req_sweep(enc, kind, param, bits, lo, hi), timeout=90)
+        if r.timeout:
+            # a decoder that never returns on some damaged track (normal sweeps take a few seconds)
+            res['viol'].append(('C06:sweep:decoder-hang', '%s sweep %s over bits %d..%d of a %d-sector track did not finish in 90 s' % (enc, KINDS.get(kind, kind), lo, min(hi, len(bits)), nsect)))
+            res['case'] = case
+            return res
         if r.status() != 'exit0':
             k, fr = __import__('lib.mcb', fromlist=['x']).san_kind(r.err)
             res['viol'].append(('C06:sweep:crash:%s:%s' % (k, fr), '%s %s' % (r.status(), r.err[-400:])))
@@ -143,7 +148,7 @@ def w_cross(case):
         st = spans[i + 1]['start'] + (sync - 2) * 16
         b = list(range(st, st + 32 + (16 if enc == 'F' else 64) + 16))
         a = a[case['alo']:case['ahi']]
-        r = mcx.call('san', mcx.req_pairs(enc, bits, a + b))
+        r = mcx.call('san', mcx.req_pairs(enc, bits, a + b), timeout=90)
         if r.status() != 'exit0':
             res['viol'].append(('C06:cross:crash', r.status() + ' ' + r.err[-300:].decode('latin-1')))
             res['case'] = case
@@ -202,7 +207,7 @@ def w_pairs(case):
         for gi in range(0, len(sel), 12):
             window = sel[gi:gi + 12]
             ext = sorted(set(window + [b for b in others if window[0] < b <= window[-1] + 400]))[:60]
-            r = mcx.call('san', mcx.req_pairs(enc, bits, ext))
+            r = mcx.call('san', mcx.req_pairs(enc, bits, ext), timeout=90)
             if r.status() != 'exit0':
                 res['viol'].append(('C06:pairs:crash', r.status() + ' ' + r.err[-300:].decode('latin-1')))
                 break
